@@ -1,6 +1,6 @@
 CONSTANTS NI = 1  NR = 1  NC = 1  NA = 1  RichA = 1
           KindSet = {}  TempSet = {}  VC = {}  VSP = {}  VSN = {}
-          MaxCol = 0  MaxRec = 0  MaxLen = 0  Hist = FALSE  Ties = FALSE  Dev = {}
+          MaxCol = 0  MaxRec = 0  MaxLen = 0  WitSet = {}  Hist = FALSE  Ties = FALSE  Dev = {}
 INIT TInit
 NEXT TNext
 CONSTRAINT Progress
